@@ -31,5 +31,7 @@
 ; unq_ok / unq_len: success and decoded length of unquoting the quoted JSON string d[o..o+n)  (uninterpreted)
 (declare-fun unq_ok ((Array Int Int) Int Int) Bool)
 (declare-fun unq_len ((Array Int Int) Int Int) Int)
+; the decoded text itself (DEFINED as the decoder's output, see the defines clauses of bytes.unquoteBytes)
+(declare-fun unq_str ((Array Int Int) Int Int) Str)
 ; decimal rendering of a natural number by strconv.FormatUint / Itoa (uninterpreted, assumed canonical)
 (declare-fun decimal_of (Int) Str)
